@@ -383,7 +383,7 @@ func TestVerif_C18_bind(t *testing.T) {
 			resp.Response = &http.Response{StatusCode: code, Header: h, Body: c18Body(body, readOK)}
 		}
 		if cached {
-			resp.body = []byte(body)
+			resp.SetBody([]byte(body)) // public setter of the cached body
 		}
 		custom := "-"
 		if ck.fn != nil {
@@ -430,7 +430,7 @@ func TestVerif_C18_bind(t *testing.T) {
 			codec = "many:" + strings.Join(codecLog, "+")
 		}
 		impl := "res=" + c18b(res) + " err=" + errSlot + " ret=" + c18ErrName(err) + " respErr=" + c18ErrName(resp.Err) +
-			" cached=" + c18b(resp.body != nil) + " codec=" + codec
+			" cached=" + c18b(resp.Bytes() != nil) + " codec=" + codec
 
 		// independent oracle for the contract clauses
 		state := "U"
@@ -534,7 +534,7 @@ func TestVerif_C18_bind(t *testing.T) {
 		c.SetJsonUnmarshal(func([]byte, interface{}) error { got += "json"; return nil })
 		c.SetXmlUnmarshal(func([]byte, interface{}) error { got += "xml"; return nil })
 		resp := &Response{Request: c.R(), Response: &http.Response{StatusCode: 200, Header: http.Header{"Content-Type": {ct}}}}
-		resp.body = []byte("x")
+		resp.SetBody([]byte("x"))
 		unmarshalBody(c, resp, &c18T{})
 		want := "json"
 		if c18CtClass(ct) == "xml" {
